@@ -278,6 +278,14 @@ def _task_factory(loop, coro, **kwargs):
     return SimTask(coro, loop=loop, **kwargs)
 
 
+# code under test that builds tasks without the loop's factory (an eager task factory,
+# Task(...) called directly) must get tasks with the seeded hash as well: runners keep
+# tasks in sets, and an address-based hash makes their iteration order irreproducible
+asyncio.Task = asyncio.tasks.Task = SimTask
+if hasattr(asyncio, "create_eager_task_factory"):
+    asyncio.eager_task_factory = asyncio.tasks.eager_task_factory = asyncio.create_eager_task_factory(SimTask)
+
+
 class SimLoop(asyncio.SelectorEventLoop):
     def __init__(self):
         super().__init__(selector=SimSelector(selectors.DefaultSelector()))
@@ -482,6 +490,11 @@ MONITORED_MODULES = [
 ]
 for _name in MONITORED_MODULES:
     monitor_module(sys.modules[_name])
+# the registry of service units is a WeakSet shared between the thread that constructs services
+# and the accept loop: iterating it is pure Python without a lock, other threads get in between
+import _weakrefset  # noqa: E402
+
+monitor_function(_weakrefset.WeakSet.__iter__)
 
 
 def crc(obj):
